@@ -79,6 +79,9 @@ pub fn replay(id: &str, j: &J) -> i32 {
 /// property holds on this case now), or `None` when the case kind has no stand-alone replay.
 pub fn replay_case(id: &str, case: &J) -> Option<Vec<String>> {
     let case = case.clone();
+    if case.get("kind").and_then(|k| k.as_str()) == Some("spelling") {
+        return replay_spelling(&case);
+    }
     let res: Option<Vec<String>> = match id {
         "C01" => c01::replay(&case),
         "C02" => c02::replay(&case),
@@ -103,3 +106,92 @@ pub fn replay_case(id: &str, case: &J) -> Option<Vec<String>> {
     };
     res
 }
+
+/// The spelling dimension of a check that drives the binary: each given command line is run again in
+/// every other way of writing it (`cli::respellings`) on the same input; exit status and stdout must
+/// not change. Violations are reported under `prop`; a replay record holds both command lines and the
+/// input.
+pub(crate) fn spelling_part(rep: &mut crate::verdict::Report, prop: &str, what: &str, cases: &[(Vec<String>, Vec<u8>)], scratch: &crate::cli::Scratch) {
+    let res = crate::par::par_map(cases.len(), |i| {
+        let argv: Vec<&str> = cases[i].0.iter().map(|s| s.as_str()).collect();
+        crate::cli::respelling_differences(&argv, &cases[i].1, scratch)
+    });
+    let mut n = 0u64;
+    for ((argv, stdin), diffs) in cases.iter().zip(res) {
+        let av: Vec<&str> = argv.iter().map(|s| s.as_str()).collect();
+        n += 1 + crate::cli::respellings(&av).map_or(0, |v| v.len()) as u64;
+        for (kind, respelled, why) in diffs {
+            rep.violation(
+                format!("{prop}|cli|spelling-changes-result|{}|{kind}", argv[0]),
+                why,
+                J::obj([("kind", J::s("spelling")), ("spelling", J::s(kind.as_str())), ("argv", J::strs(&argv.iter().map(|s| s.as_str()).collect::<Vec<_>>())), ("respelled", J::strs(&respelled.iter().map(|s| s.as_str()).collect::<Vec<_>>())), ("stdin_hex", J::s(crate::json::hex(stdin)))]),
+            );
+        }
+    }
+    rep.part(crate::verdict::Part {
+        name: "cli: other spellings of the same command line".into(),
+        evaluations: n,
+        nontrivial: n,
+        note: format!("{} command lines ({what}), each also with every option in its long form with `=`, in its short form with the value attached, list values as repeated occurrences, the options in reverse order behind the positional arguments, numbers with a leading `+` or leading zeros, the defaults spelled out, the hidden --debug flag in front of and behind the subcommand, the input named /dev/stdin, a text spectrum with CRLF line ends and without the final one, view and fold also with -o over a longer existing file, into a named pipe and onto the input file itself, create also with the sample list in parts and as a samples file with LF / CRLF / mixed line ends with and without the final one: the same exit status and byte-identical output", cases.len()),
+        exhaustive: true,
+        extra: vec![],
+    });
+}
+
+/// Replays a `spelling` record: the recorded command line with its other spellings and routes on the
+/// recorded input; reports the recorded kind if it differs again.
+pub(crate) fn replay_spelling(case: &J) -> Option<Vec<String>> {
+    let a: Vec<String> = case.get("argv")?.as_arr()?.iter().filter_map(|x| x.as_str().map(|s| s.to_string())).collect();
+    let kind = case.get("spelling")?.as_str()?.to_string();
+    let stdin = crate::json::unhex(case.get("stdin_hex")?.as_str()?)?;
+    let scratch = crate::cli::Scratch::new("spell");
+    let av: Vec<&str> = a.iter().map(|s| s.as_str()).collect();
+    Some(crate::cli::respelling_differences(&av, &stdin, &scratch).into_iter().filter(|(k, _, _)| *k == kind).map(|(k, _, w)| format!("spelling-changes-result|{k} :: {w}")).collect())
+}
+
+/// An npy file of element type `descr` (format `version`.0) and the text spelling of exactly the
+/// values it holds: fractions that are no short decimals for the floats, entries beyond the range
+/// of the next smaller and of the signed type for the integers.
+pub(crate) fn typed_npy_and_text(shape: &[usize], descr: &str, version: u8) -> (Vec<u8>, String) {
+    let n: usize = shape.iter().product();
+    let float = descr.ends_with("f4") || descr.ends_with("f8");
+    let big = descr.starts_with('>');
+    let mut data: Vec<u8> = Vec::new();
+    let mut vals: Vec<f64> = Vec::new();
+    for f in 0..n {
+        let k = (f * 37 + 11) % 101 + 1;
+        let mut push = |le: &[u8], v: f64| {
+            let mut b = le.to_vec();
+            if big {
+                b.reverse();
+            }
+            data.extend_from_slice(&b);
+            vals.push(v);
+        };
+        match &descr[1..] {
+            "f4" => {
+                let x = k as f32 * 0.7 + 0.3;
+                push(&x.to_le_bytes(), x as f64);
+            }
+            "f8" => {
+                let x = k as f64 * 0.7 + 0.3;
+                push(&x.to_le_bytes(), x);
+            }
+            "u1" => push(&[(k + 130) as u8], (k + 130) as f64),
+            "i1" => push(&[k as u8], k as f64),
+            "u2" => push(&((k * 600) as u16).to_le_bytes(), (k * 600) as f64),
+            "i2" => push(&((k * 300) as i16).to_le_bytes(), (k * 300) as f64),
+            "u4" => push(&((k as u32) * 40_000_000).to_le_bytes(), (k as u32 * 40_000_000) as f64),
+            "i4" => push(&((k as i32) * 20_000_000).to_le_bytes(), (k as i32 * 20_000_000) as f64),
+            "u8" => push(&((k as u64) << 40).to_le_bytes(), ((k as u64) << 40) as f64),
+            _ => push(&((k as i64) << 39).to_le_bytes(), ((k as i64) << 39) as f64),
+        }
+    }
+    let _ = float;
+    let np = crate::npyref::Spelling::numpy();
+    let npy = crate::npyref::synth(version, &crate::npyref::dict_text(descr, false, shape, &np), &data);
+    let text = format!("#SHAPE=<{}>\n{}\n", shape.iter().map(|x| x.to_string()).collect::<Vec<_>>().join("/"), vals.iter().map(|v| format!("{v:?}")).collect::<Vec<_>>().join(" "));
+    (npy, text)
+}
+
+pub(crate) const NPY_DESCRS: [&str; 18] = ["<f8", ">f8", "<f4", ">f4", "|u1", "|i1", "<u2", ">u2", "<i2", ">i2", "<u4", ">u4", "<i4", ">i4", "<u8", ">u8", "<i8", ">i8"];
